@@ -29,7 +29,25 @@ type fixedProg struct {
 	XT, YT argT
 	Outs   []int
 	Ref    func(x, y uint64) []uint64
+	// RefBig is the reference of the programs with inputs wider than 64 bits
+	// (Ref is nil for them).
+	RefBig func(x, y *big.Int) []*big.Int
 	Sizes  [][]int // input sizes for unsized (slice) parameters, whole-circuit compile
+}
+
+// ref evaluates the program's reference function.
+func (fp *fixedProg) ref(x, y *big.Int) []*big.Int {
+	if fp.RefBig != nil {
+		return fp.RefBig(x, y)
+	}
+	return u64s(fp.Ref(x.Uint64(), y.Uint64()))
+}
+
+// wrapN reduces v to n bits (two's complement).
+func wrapN(v *big.Int, n int) *big.Int {
+	m := new(big.Int).Lsh(big.NewInt(1), uint(n))
+	r := new(big.Int).Mod(v, m)
+	return r
 }
 
 func sext(v uint64, bits int) int64 {
@@ -153,7 +171,101 @@ func main(a uint4, b uint4) (uint4, bool) { return a ^ b ^ 0xf, !(a < b) }`,
 	},
 }
 
-func init() { fixedProgs = append(fixedProgs, extraProgs...) }
+// Programs whose result (and, for some, whose inputs) are wider than 64 bits:
+// result bit indices, label indices and OT wire indices beyond one machine
+// word.
+var wideProgs = []fixedProg{
+	{
+		Name: "add128",
+		Src: `package main
+func main(a uint128, b uint128) uint128 { return a + b }`,
+		XT: argT{Kind: "uint", Bits: 128}, YT: argT{Kind: "uint", Bits: 128}, Outs: []int{128},
+		RefBig: func(x, y *big.Int) []*big.Int {
+			return []*big.Int{wrapN(new(big.Int).Add(x, y), 128)}
+		},
+	},
+	{
+		Name: "mix100",
+		Src: `package main
+func main(a uint100, b uint100) uint100 { return (a + b) ^ (a & b) }`,
+		XT: argT{Kind: "uint", Bits: 100}, YT: argT{Kind: "uint", Bits: 100}, Outs: []int{100},
+		RefBig: func(x, y *big.Int) []*big.Int {
+			s := wrapN(new(big.Int).Add(x, y), 100)
+			return []*big.Int{s.Xor(s, new(big.Int).And(x, y))}
+		},
+	},
+	{
+		// Two results of 70 and 9 bits, narrow evaluator input (cheap OT).
+		Name: "wide2",
+		Src: `package main
+func main(a uint70, b uint9) (uint70, uint9) {
+	return a ^ (uint70(b) << 61) ^ (uint70(b) << 30), b + uint9(a >> 60)
+}`,
+		XT: argT{Kind: "uint", Bits: 70}, YT: argT{Kind: "uint", Bits: 9}, Outs: []int{70, 9},
+		RefBig: func(x, y *big.Int) []*big.Int {
+			r := new(big.Int).Xor(x, wrapN(new(big.Int).Lsh(y, 61), 70))
+			r.Xor(r, wrapN(new(big.Int).Lsh(y, 30), 70))
+			q := new(big.Int).Add(y, wrapN(new(big.Int).Rsh(x, 60), 9))
+			return []*big.Int{r, wrapN(q, 9)}
+		},
+	},
+	{
+		// Wide evaluator input, narrow garbler input.
+		Name: "widey",
+		Src: `package main
+func main(a uint8, b uint96) uint96 { return (b + uint96(a)) | (b >> 3) }`,
+		XT: argT{Kind: "uint", Bits: 8}, YT: argT{Kind: "uint", Bits: 96}, Outs: []int{96},
+		RefBig: func(x, y *big.Int) []*big.Int {
+			s := wrapN(new(big.Int).Add(x, y), 96)
+			return []*big.Int{s.Or(s, new(big.Int).Rsh(y, 3))}
+		},
+	},
+}
+
+func isWideProg(name string) bool {
+	for i := range wideProgs {
+		if wideProgs[i].Name == name {
+			return true
+		}
+	}
+	return false
+}
+
+var wideProgNames = func() []string {
+	var r []string
+	for _, p := range wideProgs {
+		r = append(r, p.Name)
+	}
+	return r
+}()
+
+func init() {
+	fixedProgs = append(fixedProgs, extraProgs...)
+	fixedProgs = append(fixedProgs, wideProgs...)
+	fixedCircs["widemix"] = wideMixCirc()
+}
+
+// wideMixCirc is a hand-made circuit with a 5-bit garbler input, a 67-bit
+// evaluator input and two results of 70 and 9 bits: 67 first-level gates
+// m[j] = op(x[j%5], y[j]) of all binary kinds, 79 result gates over pairs of
+// first-level wires.
+func wideMixCirc() gen.Circ {
+	const nx, ny = 5, 67
+	c := gen.Circ{In: []int{nx, ny}, Out: []int{70, 9}}
+	ops := []int{ref.AND, ref.XOR, ref.OR, ref.XNOR}
+	w := nx + ny
+	for j := 0; j < ny; j++ {
+		c.Gates = append(c.Gates, ref.Gate{ops[j%4], j % nx, nx + j, w})
+		w++
+	}
+	mid := nx + ny
+	ops2 := []int{ref.XOR, ref.AND, ref.XNOR, ref.OR, ref.INV}
+	for i := 0; i < 79; i++ {
+		c.Gates = append(c.Gates, ref.Gate{ops2[i%5], mid + i%ny, mid + (i*7+3)%ny, w})
+		w++
+	}
+	return c
+}
 
 var fixedProgNames = func() []string {
 	var r []string
@@ -298,5 +410,24 @@ func enumSessions() []Session {
 		mk("stream", "", "structarg", "0110", "10110111001", 302),
 		mk("stream", "", "xorconst", "1001", "0101", 303),
 		mk("stream", "", "slicearg", "10110010", "1000000001000000", 304))
+	// Wide sessions: more than 64 result bits (one of 128, one of 100, 70+9
+	// in both modes and as a hand-made circuit, 96 with a 96-bit evaluator
+	// input), inputs from a fixed pseudo-random pattern so that the reference
+	// has 1 bits and 0 bits at result indices >= 64 (checked by checkWide).
+	bits := func(n int, stream uint64) string {
+		raw := gen.NewDRBG(4242, stream).Bytes((n + 7) / 8)
+		b := make([]byte, n)
+		for i := range b {
+			b[i] = '0' + raw[i/8]>>uint(i%8)&1
+		}
+		return string(b)
+	}
+	res = append(res,
+		mk("circ", "", "add128", bits(128, 1), bits(128, 2), 401),
+		mk("stream", "", "mix100", bits(100, 3), bits(100, 4), 402),
+		mk("circ", "", "wide2", bits(70, 5), bits(9, 6), 403),
+		mk("stream", "", "wide2", bits(70, 7), bits(9, 8), 404),
+		mk("circ", "widemix", "", bits(5, 9), bits(67, 10), 405),
+		mk("stream", "", "widey", bits(8, 11), bits(96, 12), 406))
 	return res
 }
